@@ -83,6 +83,7 @@ inline void ConcurrentTransientTopic<T, S>::publish_n(size_t num,
       iter->futex.set_published();
     }
     ::std::atomic_thread_fence(::std::memory_order_seq_cst);
+    BABYLON_VERIF_POINT("topic:published_before_wake");
     for (auto iter = begin; iter != end; ++iter) {
       iter->futex.wakeup_waiters();
     }
@@ -95,6 +96,7 @@ inline void ConcurrentTransientTopic<T, S>::close() noexcept {
   auto& slot = _slots.ensure(index);
   slot.futex.set_closed();
   ::std::atomic_thread_fence(::std::memory_order_seq_cst);
+  BABYLON_VERIF_POINT("topic:closed_before_wake");
   slot.futex.wakeup_waiters();
 }
 
@@ -155,6 +157,7 @@ ABSL_ATTRIBUTE_NOINLINE void
 ConcurrentTransientTopic<T, S>::SlotFutex::wakeup_waiters_slow(
     uint32_t current_status_and_waiters) noexcept {
   uint16_t status = current_status_and_waiters;
+  BABYLON_VERIF_POINT("topic:wake_slow");
   _futex.value().compare_exchange_weak(current_status_and_waiters, status,
                                        ::std::memory_order_relaxed);
   _futex.wake_all();
@@ -384,6 +387,7 @@ ConcurrentTransientTopic<T, S>::Consumer::consume(size_t num) noexcept {
         ++iter;
         continue;
       }
+      BABYLON_VERIF_POINT("topic:consume_before_wait");
       slot.futex.wait_until_ready();
     }
   });
